@@ -636,8 +636,25 @@ def cash_obs():
             if r.status != 'unsat':
                 rp = _replay_cash_target()
                 return Verdict('refuted' if r.status == 'sat' else 'unknown', r.backend, time.time() - t0, 'default cash(): %s fails' % label, witness={'vc': label}, replay=rp)
-        if seen['fn'] is not m_ or res.at(()) is not tm.sel('cashroot') and res.at(()) is not tm.var('cashroot'):
-            return Verdict('refuted', 'structural', time.time() - t0, 'default cash(): searched function is not the criterion itself / result is not the root', witness={}, replay=_replay_cash_target())
+        if res.at(()) is not tm.sel('cashroot') and res.at(()) is not tm.var('cashroot'):
+            return Verdict('refuted', 'structural', time.time() - t0, 'default cash(): the result is not the root handed back by the search', witness={}, replay=_replay_cash_target())
+        if seen['fn'] is not m_:
+            # not the criterion object itself: accept any function that equals the criterion on a candidate cash amount
+            def run_fn(c):
+                cand = Tensor.input('cand', (SInt(N),), torch.float64)          # compared as functions of an arbitrary positive sample
+                i2 = c.fresh('ci', 'I')
+                c.assume(tm.forall(i2, tm.IZERO, N, tm.gt(tm.sel('cand', i2), tm.ZERO)))
+                return seen['fn'](cand), m_(cand)
+            try:
+                pf = explore(run_fn, DIMS, max_paths=4)
+            except Unsupported as e:
+                pf = []
+            if len(pf) != 1 or pf[0].outcome() != 'returns':
+                return Verdict('unknown', 'engine', time.time() - t0, 'default cash(): the searched function is not the criterion object and could not be compared with it: %s' % [(p_.outcome(), str(p_.exception)[:100]) for p_ in pf])
+            g_, r_ = pf[0].result
+            rr = fc.prove_eq(pf[0].facts(DIMS), g_.at(()), r_.at(()), timeout_ms=20000)
+            if rr.status != 'unsat':
+                return Verdict('refuted' if rr.status == 'sat' else 'unknown', rr.backend, time.time() - t0, 'default cash(): the searched function differs from the criterion: %s vs %s' % (tm.show(g_.at(()))[:150], tm.show(r_.at(()))[:150]), witness={}, replay=_replay_cash_target())
         return Verdict('proved', 'z3', time.time() - t0, '', sample={'claim': 'default cash search wiring', 'goals': [g_[0] for g_ in goals]})
     obs.append(Obligation('RK/HedgeLoss.cash/wiring', 'post', L_ + 'HedgeLoss.cash', default_cash_wiring, ['C06'],
                           clause='the default cash search inverts the criterion on [min, max] of (input - target) at the level criterion(input - target)'))
